@@ -264,6 +264,8 @@ def run(s):
     s.oblige("C05.spectrum_reaches_interpolation_mode_by_mode", spectrum_ob, ["mode_gamma.interpolate_modes"], kind="finite")
     s.oblige("C05.static_table_is_the_filled_table", C08.apply_table, ["elast_dat.apply_symetry_on_elast_data"], kind="finite")
     # ---------------- bounded end-to-end
+    if s.__dict__.get("glue_only"):          # another property registers only some of the glue obligations above (core.SubSession)
+        return
     # "with the crystal-system filling applied first when requested": the packaged relation tables are data the totals depend on; that they are the Laue invariants is C08's
     # obligation and is registered here as well (a sign flipped in a constraints file changes c26 of a tetragonal7 calculation by 2 |c16|)
     from props import C08, C15
